@@ -307,3 +307,11 @@ pub(crate) fn c20_poly1305_raw_result_short_output_panics() {
     p.raw_result(&mut out[..n]);
     vcover!(true, "MUST-NOT: returned normally instead of refusing");
 }
+
+/// native execution of the private block() for mirsym counterexamples (see limbs_native.rs)
+#[cfg(not(kani))]
+pub(crate) fn native_block(r: [u32; 5], h: [u32; 5], m: [u8; 16], finalized: bool) -> [u32; 5] {
+    let mut p = mk(r, h, [0; 4], 0, [0; 16], finalized);
+    p.block(&m);
+    p.h
+}
